@@ -344,8 +344,12 @@ Fixpoint recs_eqb (a b : list rec) : bool :=
 Definition contents (l : list rfile) : list rec := concat (map fcont l).
 Definition survivors (s : snap) : list rec := contents (isort (s_rot s)) ++ s_act s.
 (* exactly one newline terminates a record and belongs to it *)
-Definition terminated (r : rec) : bool :=
-  match rev (rbytes r) with c :: _ => N.eqb c 10 | [] => false end.
+Fixpoint ends_nl (l : str) : bool :=
+  match l with
+  | [] => false
+  | c :: t => match t with [] => N.eqb c 10 | _ :: _ => ends_nl t end
+  end.
+Definition terminated (r : rec) : bool := ends_nl (rbytes r).
 Fixpoint ids_from (k : nat) (l : list rec) : bool :=
   match l with [] => true | r :: t => Nat.eqb (rid r) k && ids_from (S k) t end.
 
